@@ -252,6 +252,7 @@ theorem foldl_linkOK {cfg : Cfg} (hdry : cfg.dryRun = false) (flt : Faults) {S :
 structure LocalPost (cfg : Cfg) (before : Option DNode) (t : Task) (after : Option DNode) : Prop where
   skip : (t.act = .skip ∨ t.payload = .nothing) → after = before
   dir : t.act ≠ .skip → t.payload = .dir → t.rel ≠ [] → after = some .dir
+  dir_pre : t.act ≠ .skip → t.payload = .dir → t.rel ≠ [] → before = none ∨ before = some .dir
   symlink : t.act ≠ .skip → ∀ text, t.payload = .symlink text → after = some (.symlink text)
   file : t.act ≠ .skip → ∀ m n, t.payload = .file m n →
     ∃ d, after = some (.file d) ∧ Matches cfg d m ∧ (∀ o, before = some (.file o) → d.ino = o.ino)
@@ -265,13 +266,14 @@ theorem execTask_post {cfg : Cfg} (hdry : cfg.dryRun = false) (flt : Faults) {S 
   rw [he]
   by_cases hs : t.act = .skip
   · rw [perform_skip hs] at hp; cases hp
-    exact ⟨fun _ => rfl, fun h => absurd hs h, fun h => absurd hs h, fun h => absurd hs h⟩
+    exact ⟨fun _ => rfl, fun h => absurd hs h, fun h => absurd hs h, fun h => absurd hs h, fun h => absurd hs h⟩
   · rw [perform_cu hs hnd hdry] at hp
-    refine ⟨fun h => ?_, fun _ hpl hne => ?_, fun _ text hpl => ?_, fun _ m n hpl => ?_⟩
+    refine ⟨fun h => ?_, fun _ hpl hne => ?_, fun _ hpl hne => ?_, fun _ text hpl => ?_, fun _ m n hpl => ?_⟩
     · rcases h with h | h
       · exact absurd h hs
       · rw [performCU_nothing h hp]
     · exact (performCU_dir hpl hp).1 hne
+    · exact performCU_dir_pre hpl hp hne
     · exact (performCU_symlink hpl hp).1
     · rcases performCU_file hpl hp with ⟨node, hget, hmat, hi, _⟩ | ⟨x, fm, hhl, hn, _, hx, hxi, hfirst, hget, _, _, hnone⟩
       · exact ⟨node, hget, hmat, hi⟩
@@ -290,6 +292,8 @@ structure TaskPost (cfg : Cfg) (dst0 : Map DNode) (ts : List Task) (t : Task) (a
       (dst0.get? t.rel = none ∧ after = some .dir ∧ t.rel ≠ [] ∧
         ∃ t' ∈ ts, isPrefix t.rel t'.rel = true ∧ t'.rel ≠ t.rel ∧ t'.act ≠ .delete ∧ t'.act ≠ .skip)
   dir : t.act ≠ .skip → t.payload = .dir → t.rel ≠ [] → after = some .dir
+  dir_pre : t.act ≠ .skip → t.payload = .dir → t.rel ≠ [] →
+    dst0.get? t.rel = none ∨ dst0.get? t.rel = some .dir
   symlink : t.act ≠ .skip → ∀ text, t.payload = .symlink text → after = some (.symlink text)
   file : t.act ≠ .skip → ∀ m n, t.payload = .file m n →
     ∃ d, after = some (.file d) ∧ Matches cfg d m ∧ (∀ o, dst0.get? t.rel = some (.file o) → d.ino = o.ino)
@@ -332,8 +336,8 @@ theorem foldl_task_post {cfg : Cfg} (hdry : cfg.dryRun = false) (flt : Faults) {
     rcases f2 with h2 | ⟨a, _⟩
     · rw [h2]; exact hv
     · rw [hv] at a; cases a
-  refine ⟨fun h => ?_, fun hs hpl hne => keep _ (lp.dir hs hpl hne), fun hs text hpl => keep _ (lp.symlink hs text hpl),
-    fun hs m n hpl => ?_⟩
+  refine ⟨fun h => ?_, fun hs hpl hne => keep _ (lp.dir hs hpl hne), fun hs hpl hne => ?_,
+    fun hs text hpl => keep _ (lp.symlink hs text hpl), fun hs m n hpl => ?_⟩
   · have e2 := lp.skip h
     rcases f1 with h1 | ⟨a1, b1, c1, t1, ht1, d1⟩
     · rcases f2 with h2 | ⟨a2, b2, c2, t2, ht2, d2⟩
@@ -344,6 +348,10 @@ theorem foldl_task_post {cfg : Cfg} (hdry : cfg.dryRun = false) (flt : Faults) {
       · refine Or.inr ⟨a1, by rw [h2, e2]; exact b1, c1, t1, ?_, d1.1, (hpre t1 ht1).1, d1.2⟩
         rw [hts]; exact List.mem_append_left _ ht1
       · rw [e2, b1] at a2; cases a2
+  · have hb := lp.dir_pre hs hpl hne
+    rcases f1 with h1 | ⟨a1, _⟩
+    · rw [← h1]; exact hb
+    · exact Or.inl a1
   · obtain ⟨d, hd, hm, hi⟩ := lp.file hs m n hpl
     refine ⟨d, keep _ hd, hm, fun o ho => hi o ?_⟩
     rcases f1 with h1 | ⟨a1, _⟩
